@@ -69,6 +69,18 @@ def truth(p):
     for fid, f in p["fns"].items():
         heads = []
         for s in f["stmts"]:
+            # calls written in the argument list happen (and are analysed) before the call itself
+            for a in s.get("args", []):
+                if a["k"] == "callarg":
+                    ga = p["fns"][a["fn"]]
+                    ha_ = set()
+                    if ga["data_path"] is not None:
+                        ha_.add(ga["data_path"])
+                    else:
+                        ks, ls = set(), set()
+                        first_level(a["fn"], {a["fn"]}, True, ks, ls)
+                        ha_ |= ks
+                    heads.append((ha_, bool(ga["params"])))
             hs, takes_args = set(), False
             if s["k"] == "keep":
                 hs.add(s["path"])
